@@ -1159,6 +1159,11 @@ func (e *Engine) concat(st *State, a, b Value, t types.Type) Value {
 	if e.bound > 0 {
 		fn := "op_concat"
 		e.declareFun(fn, []string{"Str", "Str"}, "Str")
+		if e.declared["BSeq"] && !e.declared["op_concat!bseq"] {
+			e.declared["op_concat!bseq"] = true
+			e.decls = append(e.decls,
+				"(assert (forall ((a Str) (b Str)) (! (and (= (s_len (op_concat a b)) (+ (s_len a) (s_len b))) (= (bseq (s_arr (op_concat a b)) (s_off (op_concat a b)) (+ (s_off (op_concat a b)) (s_len (op_concat a b)))) (cat (bseq (s_arr a) (s_off a) (+ (s_off a) (s_len a))) (bseq (s_arr b) (s_off b) (+ (s_off b) (s_len b)))))) :pattern ((op_concat a b)))))")
+		}
 		return Value{sx(fn, a.T, b.T), t}
 	}
 	arr := e.fresh("cat", e.arrSort(e.byteSort()))
